@@ -5,7 +5,7 @@ HDR = [('VERSION', 3), ('TYPE', 1), ('SEC_HDR_FLG', 1), ('PKT_APID', 11), ('SEQ_
        ('PKT_LEN', 16)]
 
 
-def gen_definition(rng, rich=True, styles=None):
+def gen_definition(rng, rich=True, styles=None, nested_criteria=False):
     """recipe of a definition: CCSDS header root, 2..4 children selected by restriction criteria (APID equality,
     ranges that may overlap, BooleanExpression), optional grandchildren selected on a decoded MODE field, nested
     container references, all parameter kinds"""
@@ -56,7 +56,13 @@ def gen_definition(rng, rich=True, styles=None):
     params.append({'name': 'MODE', 'type': 'MODE_T'})
     # a nested container used by reference
     sub_fields = [new_field('SUB') for _ in range(rng.randint(1, 2))]
-    containers.append({'name': 'SUB', 'entries': sub_fields, 'base': None, 'criteria': None, 'abstract': False})
+    if nested_criteria and rng.random() < 0.5:
+        # the container used by reference is ALSO an inheritor of the root with criteria that never hold: a nested
+        # reference is expanded in place whatever the nested container's own restriction criteria say
+        containers.append({'name': 'SUB', 'entries': sub_fields, 'base': 'CCSDSPacket',
+                           'criteria': [['cmp', apid_name, '==', '2040', True]], 'abstract': False})
+    else:
+        containers.append({'name': 'SUB', 'entries': sub_fields, 'base': None, 'criteria': None, 'abstract': False})
     nchild = rng.randint(2, 4)
     apids = rng.sample(range(1, 40), nchild)
     for i in range(nchild):
